@@ -217,7 +217,7 @@ structure EncParams where
 def strBytes (s : String) : Bytes := s.toUTF8.toList
 
 def EncParams.generated : EncParams where
-  scheme := strBytes Gen.schemeName
+  scheme := Gen.schemeBytes
   segSize := Gen.encryptSegmentArg
   overhead := Gen.decryptSegmentArg - Gen.encryptSegmentArg
   npLen := Gen.noncePrefixLength
@@ -225,17 +225,22 @@ def EncParams.generated : EncParams where
   hdrMax := Gen.headerLimit
   fkLen := Gen.fileKeyLength
   nonceLayout := Gen.nonceLayout
-  hdrInfo := strBytes Gen.headerKeyDerivation.2.1
+  hdrInfo := Gen.headerInfoBytes
   hdrKeyLen := Gen.headerKeyDerivation.1
-  payInfo := strBytes Gen.payloadKeyDerivation.2.1
+  payInfo := Gen.payloadInfoBytes
   payKeyLen := Gen.payloadKeyDerivation.1
   kwIds := Gen.keyAlgorithmFromID.map (·.1)
   cphIds := Gen.cipherFromID.map (·.1)
 
+/-- What the proofs need of the parameters (true of the generated ones: `generated_wf`). -/
+structure EncParams.WF (P : EncParams) : Prop where
+  scheme_ne : P.scheme ≠ []
+  scheme_nl : (10 : UInt8) ∉ P.scheme
+  seg_pos : 0 < P.segSize
+
 /-! ## readHeader -/
 
 structure HdrState where
-  n : Nat := 0
   newlines : Nat := 0
   /-- `buf[lastNewline:i]`, reversed -/
   curRev : Bytes := []
@@ -263,28 +268,27 @@ def hdrScan (scheme : Bytes) : HdrState → Bytes → Except Err HdrState
     | .error e => .error e
     | .ok st' => hdrScan scheme st' bs
 
-/-- `for newlines < 3 && err == nil { … }` of `readHeader`. Returns the scan state, the last
-    read result and the reader. -/
-def hdrLoop (scheme : Bytes) (hdrMax : Nat) : Nat → Reader → HdrState → Except Err (HdrState × ReadRes × Reader)
-  | 0, _, _ => .error .fuel
-  | fuel + 1, r, st =>
+/-- `for newlines < 3 && err == nil { … }` of `readHeader`; `n` is the number of bytes in the
+    buffer. Returns the scan state, the last read result and the reader. -/
+def hdrLoop (scheme : Bytes) (hdrMax : Nat) : Nat → Reader → Nat → HdrState → Except Err (HdrState × ReadRes × Reader)
+  | 0, _, _, _ => .error .fuel
+  | fuel + 1, r, n, st =>
     if st.newlines ≥ 3 then .ok (st, .none, r)
-    else if st.n = hdrMax then .ok (st, .none, r)
+    else if n = hdrMax then .ok (st, .none, r)
     else
-      match r.read (hdrMax - st.n) with
+      match r.read (hdrMax - n) with
       | (chunk, res, r') =>
         match hdrScan scheme st chunk with
         | .error e => .error e
         | .ok st' =>
-          let st'' := { st' with n := st.n + chunk.length }
-          if res = .none then hdrLoop scheme hdrMax fuel r' st''
-          else .ok (st'', res, r')
+          if res = .none then hdrLoop scheme hdrMax fuel r' (n + chunk.length) st'
+          else .ok (st', res, r')
 
 /-- `propagate = true` is the code after `fix: readHeader returns a non-EOF read error`;
     `propagate = false` is the unchanged tree (kept for the witness of finding
     `header-read-error-swallowed`). -/
 def readHeaderWith (propagate : Bool) (P : EncParams) (r : Reader) : Except Err (Bytes × Bytes × Reader) :=
-  match hdrLoop P.scheme P.hdrMax (r.measure + 1) r {} with
+  match hdrLoop P.scheme P.hdrMax (r.measure + 1) r 0 {} with
   | .error e => .error e
   | .ok (st, res, r') =>
     if st.newlines < 1 then .error .hdrNoScheme
@@ -310,6 +314,7 @@ structure Crypto where
 structure Crypto.Lawful (c : Crypto) (overhead : Nat) : Prop where
   open_seal : ∀ cph k n p, c.aopen cph k n (c.aseal cph k n p) = some p
   seal_length : ∀ cph k n p, (c.aseal cph k n p).length = p.length + overhead
+  hmac_ne : ∀ k msg, c.hmac k msg ≠ []
 
 structure Manifest where
   keyName : Bytes
